@@ -3,21 +3,30 @@
 # estimate, LC_CODE_SIGNATURE / __LINKEDIT patches).  Serves C01 C02 C03 C05 C08 C11 through body(ctx); run(ctx) is the standalone
 # entry (bin/check FMTMACHO).  The readers in the first half are written from cs_blobs.h / CSCommon.h / <mach-o/loader.h>; they never
 # look at the Coq model.  Page hashing itself belongs to unit C09 (hashpages = chunks of 4096).
+# CodeSize / VerifyPages (lib/fruit/csblob/verify.go) are NOT hand-modelled: srcgen translates their bodies statement by statement (vp_prog,
+# cs_code_size_of; interpreter coq/FmtMACHO/VpLang.v, theorems coq/FmtMACHO/ProofsVP.v).  The driver reaches them three ways (harness/p/fmtmacho/vp.go):
+# vpd = SigBlob built from exported fields, vpb = genuine CMS over crafted directories through csblob.Verify, vpf = Mach-O and DMG files verified by
+# machos.Verify / dmg.Open + Verify in a fresh process without recover (a panic is a crash).  Finding keys of this part: verify-pages-negative-limit-panic,
+# verify-pages-panic, verify-pages-pagesize-panic (C11), pages-accepted-against-specification, code-size-wrong (C02), conforming-directory-rejected (C01),
+# code-slots-do-not-cover-limit (C02; fixed by relic 086958a) and negative-limit-without-slots-accepted (C02; fixed by relic bd61613), both kept as regression:
+# the tampered one-slot / two-page image and the no-slot images with CodeLimit64 = -1 of vp.go (vpf classes tamper-last-few, */m1, */minint/none, tamper-noslots).
 import collections, hashlib, json, struct
 from vlib.common import Hex
 
 ASPECT_THEOREMS = {
     "C01": ["macho_new_item_wf", "macho_super_roundtrip", "macho_super_spec_reader", "macho_cdhash_is_emitted", "macho_sign_blob_parses",
             "macho_size_estimate_sufficient", "macho_size_estimate_refuted", "macho_align_spec", "macho_patch_offsets",
-            "macho_hashed_stream_is_output_prefix", "macho_refuses_no_linkedit", "macho_laws_computed", "macho_trailing_not_hashed"],
+            "macho_hashed_stream_is_output_prefix", "macho_refuses_no_linkedit", "macho_laws_computed", "macho_trailing_not_hashed",
+            "macho_spec_pages_accepted"],
     "C02": ["macho_verify_sound", "macho_two_dirs_bound", "macho_verify_pages_sound", "macho_alternate_unbound_refuted",
-            "macho_blob_without_slot_refuted", "macho_cdhash_is_emitted"],
+            "macho_blob_without_slot_refuted", "macho_cdhash_is_emitted", "macho_verify_pages_accepts_iff", "macho_verify_pages_accepts_spec",
+            "macho_code_size_spec", "macho_few_slots_rejected", "macho_negative_limit_rejected", "macho_vp_prog_is_fun"],
     "C03": ["macho_cd_spec_reader", "macho_patch_offsets", "macho_hashed_stream_is_output_prefix", "macho_laws_computed"],
     "C05": ["macho_new_item_wf", "macho_super_spec_reader", "macho_cd_spec_reader", "macho_cdhash_is_emitted", "macho_pages_are_c09",
-            "macho_sign_blob_parses"],
+            "macho_sign_blob_parses", "macho_verify_pages_accepts_spec", "macho_spec_pages_accepted", "macho_code_size_spec"],
     "C08": ["macho_hashed_stream_is_output_prefix", "macho_laws_computed"],
     "C11": ["macho_parse_no_panic", "macho_parse_cd_no_panic", "macho_parse_signature_no_panic", "macho_verify_no_panic",
-            "macho_verify_pages_no_panic", "macho_scan_no_panic"],
+            "macho_verify_pages_no_panic", "macho_scan_no_panic", "macho_vp_no_panic", "macho_verify_pages_rd_no_panic", "macho_vp_prog_is_fun", "macho_negative_limit_rejected"],
 }
 ASPECTS = ("C01", "C02", "C03", "C05", "C08", "C11")
 
@@ -166,6 +175,48 @@ def macho_payload(f):
     return (f[:16] + f[24:im["hdr"]], [blank_linkedit(c) for c in im["cmds"] if c["cmd"] != 0x1d], body)
 
 
+# ------------------------------------------------------------------ page hashes: the specification (cs_blobs.h; Security.framework CodeDirectory::checkIntegrity /
+# StaticCode::validateExecutable): slot i is the digest of page i of the first codeLimit bytes, pages of 2^pageSize bytes, the last one short;
+# pageSize 0: one slot over everything; codeLimit64 (an UNSIGNED 64 bit field, versions >= 0x20300) replaces codeLimit when it is not zero
+def spec_limit(version, l32, l64u):
+    return l64u if (version is None or version >= 0x20300) and l64u != 0 else l32
+
+
+def spec_code_slots(h, code, log2):
+    if log2 == 0:
+        return [H(h, code)]
+    ps = 1 << log2
+    return [H(h, code[i:i + ps]) for i in range(0, len(code), ps)]
+
+
+def spec_pages_needed(limit, log2):
+    return 1 if log2 == 0 else (limit + (1 << log2) - 1) >> log2
+
+
+def spec_pages_ok(h, log2, limit, slots, region):
+    return limit <= len(region) and slots == spec_code_slots(h, region[:limit], log2)
+
+
+def s64(x):
+    x %= 1 << 64
+    return x - (1 << 64) if x >= 1 << 63 else x
+
+
+def vp_preimages(rd, log2, cs):
+    """byte strings VerifyPages may hash for this geometry (only to give the model their digests; generous)"""
+    out = [b"", rd]
+    if 1 <= log2 <= 20:
+        ps = 1 << log2
+        lim = max(0, min(cs, len(rd)))
+        for off in range(0, len(rd) + 1, ps):
+            out.append(rd[off:off + ps])
+            if off < lim < off + ps:
+                out.append(rd[off:lim])
+            if off > (lim + 2 * ps) and off > 4 * ps:
+                break
+    return out
+
+
 def chunks(b, n=4096):
     return [b[i:i + n] for i in range(0, len(b), n)]
 
@@ -235,6 +286,20 @@ def body(ctx, replay=None):
 
     if replay:
         recs = json.load(open(replay)).get("cases", [])
+        import os
+        for k, r in enumerate(recs):
+            if r.get("kind") == "vpf" and r.get("file"):
+                # re-run the recorded FILE through the real verifier of the tree under test, in a fresh process
+                path = os.path.join(ctx.scratch, "replay%d.%s" % (k, "dmg" if r["container"] == "dmg" else "bin"))
+                open(path, "wb").write(bytes.fromhex(r["file"]))
+                rc, out, err = ctx.drv(["fmtmacho", "vfy-worker", r["container"], path], timeout=120)
+                if rc == 0 and out.strip():
+                    w = json.loads(out.strip().splitlines()[-1])
+                    r["sub"] = {"exit": 0, "status": w["status"], "err": w.get("err", ""), "crash": False}
+                    if r["container"] == "macho":
+                        r["inproc"] = {"status": w["status"], "err": w.get("err", "")}
+                else:
+                    r["sub"] = {"exit": rc, "status": 102 if "makeslice" in err else 101 if "out of range" in err else 100, "err": err.splitlines()[0] if err else "", "crash": True, "stderr": err[:1500]}
     else:
         rc, out, err = ctx.drv(["fmtmacho"], timeout=900)
         if rc != 0:
@@ -437,6 +502,128 @@ def body(ctx, replay=None):
             potential("C02", what, "the verifier accepts a signature altered after signing (%s): best directory = slot %#x, CMS covers slot 0 only" % (r["cls"], real["best"])
                       if "alt-dir" in r["cls"] else "the verifier accepts a signature altered after signing (%s)" % r["cls"], rp)
 
+
+    # ================================================================ CodeSize / VerifyPages on every limit class x page size x slot count (C11, C02, C01)
+    # model-free: the verdict of the real code against the specification functions above
+    vp_stats = collections.Counter()
+    vp_found = collections.OrderedDict()     # (kind, aspect, what) -> [detail of the first case, first cases, count, classes]
+
+    def vp_report(kind, aspect, what, detail, r, where):
+        ent = vp_found.setdefault((kind, aspect, what), [detail, [], 0, []])
+        ent[2] += 1
+        if r.get("tampered") and not any(c.get("tampered") for c in ent[1]):      # the most telling example first: content changed after signing
+            ent[1].insert(0, r)
+            ent[0] = detail
+            del ent[1][2:]
+        elif len(ent[1]) < 2:
+            ent[1].append(r)
+        if len(ent[3]) < 60:
+            ent[3].append(where)
+
+    def vp_judge(r, where, h, log2, limit_u, slots, region, status, crashed, err, single_needs_all=False):
+        """status: 0 accepted, 1..99 ordinary error, >= 100 panic / crash; limit_u: the code limit as the unsigned number the format defines"""
+        ok = (h in HASHLIB) and spec_pages_ok(h, log2, limit_u, slots, region)
+        negative = limit_u >= 1 << 63
+        vp_stats[("crash" if status >= 100 or crashed else "accept" if status == 0 else "reject", "spec-ok" if ok else "spec-no")] += 1
+        distinct.add(("vp", where.split()[0], log2, "neg" if negative else "big" if limit_u > len(region) else "in", min(len(slots), 3),
+                      spec_pages_needed(limit_u, log2) - len(slots) if not negative and limit_u <= len(region) else None, status))
+        if status >= 100 or crashed:
+            what = "verify-pages-pagesize-panic" if "makeslice" in (err or "") else "verify-pages-negative-limit-panic" if negative else "verify-pages-panic"
+            vp_report("potential", "C11", what, "%s: the page hash check PANICS (%s) on a %s whose CodeDirectory has code limit %s (%s), page size 2^%d, %d slot(s): %s" %
+                      (where, "process crashed" if crashed else "recovered in the harness", "validly signed signature" if "blob" in r else "SigBlob",
+                       s64(limit_u) if negative else limit_u, "CodeLimit64 read as int64" if negative else "unsigned", log2, len(slots), (err or "")[:160]), r, where)
+            return
+        if status == 0 and not ok:
+            need = spec_pages_needed(limit_u, log2)
+            prefix_ok = log2 != 0 and h in HASHLIB and slots == spec_code_slots(h, region[:min(limit_u, len(region))], log2)[:len(slots)] and len(slots) < need \
+                and (not negative or not slots)       # a limit from 2^63 (negative as int64) with at least one slot must be refused
+            if prefix_ok and negative and not slots:
+                # fixed by relic bd61613 (regression): CodeLimit64 >= 2^63 is a negative int64, no slot, the loop never ran, nothing was hashed
+                vp_report("potential", "C02", "negative-limit-without-slots-accepted", "%s: accepted although the directory has NO code slot and a code limit of %d (CodeLimit64 %#x "
+                          "read as int64), page size 2^%d: no byte of the file is hashed, any content verifies; the specification (and Apple's checkIntegrity) demands slots covering the limit" %
+                          (where, s64(limit_u), limit_u, log2), r, where)
+            elif prefix_ok:
+                # fixed by relic 086958a (regression): fewer slots than the limit has pages
+                vp_report("potential", "C02", "code-slots-do-not-cover-limit", "%s: accepted although the %d code slot(s) cover only %d of the %s bytes the signed code limit declares "
+                          "(page size 2^%d): bytes behind the last slot can be changed without failing verification; Apple's checkIntegrity rejects such a directory" %
+                          (where, len(slots), min(len(slots) << log2, len(region)), limit_u, log2), r, where)
+            else:
+                vp_report("viol", "C02", "pages-accepted-against-specification", "%s: ACCEPTED, but the code slots are not the digests of the pages of the first %s bytes (page size 2^%d, "
+                          "%d slot(s), region of %d bytes)" % (where, limit_u, log2, len(slots), len(region)), r, where)
+        elif status != 0 and ok and log2 <= 20 and not (log2 == 0 and single_needs_all and limit_u != len(region)):
+            vp_report("viol", "C01", "conforming-directory-rejected", "%s: a directory that describes the code exactly (limit %d, page size 2^%d, %d slot(s)) is rejected: %s" %
+                      (where, limit_u, log2, len(slots), (err or "")[:200]), r, where)
+
+    def blob_view(blob):
+        """the signed directory of a crafted signature, by the cs_blobs.h readers"""
+        sb = spec_super(blob)
+        if not sb:
+            return None
+        for t_, m_, d_ in sb[1]:
+            if t_ == 0:
+                return spec_cd(d_)
+        return None
+
+    for r in K["vpf"]:
+        n_eval += 1
+        v = blob_view(bytes.fromhex(r["blob"]))
+        sub = r["sub"]
+        f = bytes.fromhex(r["file"])
+        if v is None or v["hash_type"] not in HTYPE:
+            viol("C05", "crafted-directory-unreadable", "harness directory not readable by the cs_blobs.h reader (%s)" % r["cls"], {"cases": [slim(r)]}, False)
+            continue
+        if sub.get("timeout"):
+            potential("C11", "verify-hang", "%s verification of a crafted file did not finish (%s)" % (r["container"], r["cls"]), {"cases": [r]})
+            continue
+        if sub["status"] == 99:
+            viol("C11", "worker-failed", "verification worker failed: %s" % sub.get("err"), {"cases": [slim(r)]}, False)
+            continue
+        # Mach-O: the code is the file up to the limit; disk image: the region in front of the signature, entirely
+        region = f if r["container"] == "macho" else f[:r["region_len"]]
+        vp_judge(r, "vpf %s %s (%s in a fresh process)" % (r["container"], r["cls"], "machos.Verify" if r["container"] == "macho" else "dmg.Open + Verify"),
+                 HTYPE[v["hash_type"]], v["page_log2"], v["limit"], v["codes"], region, sub["status"], bool(sub.get("crash")), sub.get("err"), single_needs_all=(r["container"] == "dmg"))
+        if r["container"] == "macho" and not sub.get("crash") and r["inproc"]["status"] != sub["status"]:
+            viol("C11", "subprocess-differs", "machos.Verify in a fresh process (%d) and in the harness process (%d) disagree (%s)" % (sub["status"], r["inproc"]["status"], r["cls"]), {"cases": [slim(r)]}, False)
+    for r in K["vpb"]:
+        n_eval += 1
+        v = blob_view(bytes.fromhex(r["blob"]))
+        real = r["real"]
+        if v is None or v["hash_type"] not in HTYPE:
+            viol("C05", "crafted-directory-unreadable", "harness directory not readable by the cs_blobs.h reader (%s)" % r["cls"], {"cases": [slim(r)]}, False)
+            continue
+        if real["status"] != 0:
+            if real["status"] >= 100:
+                potential("C11", "verify-panic", "csblob.Verify panics on a validly signed crafted directory (%s): %s" % (r["cls"], real.get("err")), {"cases": [r]})
+            else:
+                viol("C01", "genuine-signature-rejected", "csblob.Verify rejects a genuine PKCS#7 signature over a crafted directory (%s): %s" % (r["cls"], real.get("err")), {"cases": [r]})
+            continue
+        vp_judge(r, "vpb %s" % r["cls"], HTYPE[v["hash_type"]], v["page_log2"], v["limit"], v["codes"], bytes.fromhex(r["rd"]), real["pages"], False, real.get("err"), single_needs_all=True)
+    for r in K["vpd"]:
+        n_eval += 1
+        if r["none"]:
+            if r["status"] == 0 or r["status"] >= 100:
+                viol("C02+C11", "no-directory-not-refused", "VerifyPages without any code directory: status %d" % r["status"], {"cases": [r]})
+            continue
+        rd = bytes.fromhex(r["rd"])
+        slots = [bytes.fromhex(x) for x in (r["slots"] or [])]
+        l64u = r["limit64"] % (1 << 64)
+        want_cs = s64(l64u) if l64u else r["limit32"]
+        if r["status"] < 100 and r["code_size"] != want_cs:
+            viol("C02+C05", "code-size-wrong", "CodeSize() = %d for CodeLimit64 = %d, CodeLimit = %d (cs_blobs.h: the 64 bit limit when not zero, else the 32 bit one)" %
+                 (r["code_size"], r["limit64"], r["limit32"]), {"cases": [r]})
+        vp_judge(r, "vpd %s" % r["cls"], r["hash"], r["log2"], spec_limit(None, r["limit32"], l64u), slots, rd, r["status"], False, r.get("err"), single_needs_all=True)
+
+    # one report per finding key: the first example is a FILE verified in a fresh process when there is one
+    for (kind, aspect, what), (detail, cases, count, classes) in vp_found.items():
+        rp = {"cases": cases, "count": count, "classes": classes}
+        detail = "%s [%d case(s) of this kind]" % (detail, count)
+        if kind == "potential":
+            potential(aspect, what, detail, rp)
+            res["potential_findings"][what]["count"] = count
+        else:
+            viol(aspect, what, detail, rp)
+    res["vp_verdicts"] = {"%s/%s" % k: v for k, v in sorted(vp_stats.items())}
+
     # ================================================================ scanFile on malformed images (C11) and on generated ones
     for r in K["scan"]:
         n_eval += 1
@@ -586,6 +773,38 @@ def body(ctx, replay=None):
                     if ci.get("md_alg") in HASHLIB and (t == 0 or 0x1000 <= t < 0x1006):
                         ent.append((ci["md_alg"], d))
             add("verify", r, [5, Hex(r["blob"]), [vopt(ob(r["vp"]["info"])), vopt(ob(r["vp"]["res"])), vopt(ob(r["vp"]["rep"]))], table(ent), oracle(r.get("cms")), Hex(r["file"])])
+        def verify_entries(blob, vp, cms, extra):
+            sb = spec_super(blob)
+            ent = []
+            if sb:
+                for t_, m_, d_ in sb[1]:
+                    v = spec_cd(d_) if (t_ == 0 or 0x1000 <= t_ < 0x1006) else None
+                    if v and v["hash_type"] in HTYPE:
+                        h = HTYPE[v["hash_type"]]
+                        ent += [(h, d_), (h, b"")] + [(h, x) for x in extra(v)] + [(h, y[2]) for y in sb[1]] + [(h, vp.get(k)) for k in ("info", "res", "rep")]
+                    if (cms or {}).get("md_alg") in HASHLIB and (t_ == 0 or 0x1000 <= t_ < 0x1006):
+                        ent.append((cms["md_alg"], d_))
+            return ent
+        for r in K["vpd"]:
+            rd = bytes.fromhex(r["rd"])
+            l64u = r["limit64"] % (1 << 64)
+            cs = s64(l64u) if l64u else r["limit32"]
+            add("vpd", r, [12, 1 if r["none"] else 0, r["log2"], [Hex(x) for x in (r["slots"] or [])], r["hash"], r["limit64"], r["limit32"], Hex(r["rd"]),
+                           table([(r["hash"], x) for x in vp_preimages(rd, r["log2"], cs)]), len(rd)])
+        for r in K["vpb"]:
+            rd = bytes.fromhex(r["rd"])
+            ent = verify_entries(bytes.fromhex(r["blob"]), {}, r.get("cms"), lambda v: vp_preimages(rd, v["page_log2"], s64(v["limit"])))
+            add("vpb", r, [11, Hex(r["blob"]), [vopt(None), vopt(None), vopt(None)], table(ent), oracle(r.get("cms")), Hex(r["rd"]), len(rd)])
+        for r in K["vpf"]:
+            f = bytes.fromhex(r["file"])
+            if r["container"] == "macho":
+                ent = verify_entries(bytes.fromhex(r["blob"]), {}, r.get("cms"), lambda v: vp_preimages(f if s64(v["limit"]) < 0 else f[:s64(v["limit"])], v["page_log2"], s64(v["limit"])))
+                add("vpf", r, [5, Hex(r["blob"]), [vopt(None), vopt(None), vopt(None)], table(ent), oracle(r.get("cms")), Hex(r["file"])])
+            else:
+                rd = f[:r["region_len"]]
+                rep = bytes.fromhex(r["rep"])
+                ent = verify_entries(bytes.fromhex(r["blob"]), {"rep": rep}, r.get("cms"), lambda v: vp_preimages(rd, v["page_log2"], s64(v["limit"])))
+                add("vpf", r, [11, Hex(r["blob"]), [vopt(None), vopt(None), vopt(rep)], table(ent), oracle(r.get("cms")), Hex(rd.hex()), len(f)])
         for r in K["scan"]:
             if len(r["file"]) < 160000:
                 add("scan", r, [7, Hex(r["file"])])
@@ -680,6 +899,17 @@ def body(ctx, replay=None):
                         mm(tag, r, "Verify", m)
                     elif m[1] == 104 and real["pages"] != 102:
                         res["notes"].append("VerifyPages allocates 2^pageSize bytes from the unchecked pageSize field (%s)" % r["cls"])
+            elif tag == "vpd":
+                if m[0] != r["status"] or (r["status"] < 100 and m[1] != r["code_size"]):
+                    mm(tag, r, "VerifyPages / CodeSize (generated program vs real code)", m)
+            elif tag == "vpb":
+                real = r["real"]
+                if m[0] != real["status"] or (real["status"] == 0 and (m[1] != real["pages"] or m[2] != real["code_size"])):
+                    mm(tag, r, "Verify + VerifyPages on an explicit reader", m)
+            elif tag == "vpf":
+                want = m[0] if m[0] != 0 else m[1]
+                if want != r["sub"]["status"]:
+                    mm(tag, dict(slim(r), file=r["file"][:120]), "%s file verified in a fresh process" % r["container"], m)
             elif tag == "scan":
                 s = r["scan"]
                 u64 = (lambda mk: [v % (1 << 64) if i in (8, 9, 10, 11) else v for i, v in enumerate(mk)])     # the driver prints the uint64 segment fields as int64
@@ -753,10 +983,15 @@ def run(ctx, replay=None):
                         "harness-written CS_CodeDirectory versions 0x20001..0x20500 and field-targeted corruption through parseCodeDirectory / parseSuper; crafted signatures "
                         "(grafted alternate directories, blobs without slots, page size field) through Verify; generated thin Mach-O images (32/64 bit, both byte orders, header "
                         "padding 0..200, code size in every residue modulo 8, trailing data, pre-signed with slack) and the fixtures through sign / re-sign / verify; "
-                        "single bit mutations of every region of signed images; oracles: cs_blobs.h / loader.h readers written in the check",
+                        "single bit mutations of every region of signed images; oracles: cs_blobs.h / loader.h readers written in the check; "
+                        "CodeSize / VerifyPages: CodeLimit64 in {-1, -page, -8192, -n, MinInt64, MaxInt64, 2^32, 2^32+n, n, n+-1, 0} x CodeLimit in {0, n, n+-1, 77, 2^31, 2^32-1} x page size "
+                        "2^{0,1,2,12,16,20,21,63,64,255} x slots {exact, none, first, one too few, one too many (digest of nothing / random), last wrong, all-zero} x reader {exact, short, half, "
+                        "long, tampered}: (vpd) SigBlob from exported fields, (vpb) genuine CMS over crafted directories of versions 0x20001..0x20400 through csblob.Verify, (vpf) Mach-O and "
+                        "DMG files verified by machos.Verify / dmg.Open+Verify in a fresh process without recover; oracle: page hash specification written in the check",
                 "samples": cb["samples"], "case_counts": cb.get("cases"), "model_cases": cb.get("model_cases"), "model_mismatches": cb.get("mismatches"),
                 "aspect_theorems": ASPECT_THEOREMS, "potential_findings": cb.get("potential_findings"), "accepted_unprotected": cb.get("accepted_unprotected"),
                 "unprotected_regions": cb.get("unprotected_regions"), "reserved_space": cb.get("reserve"),
-                "fresh_ok_images": cb.get("fresh_ok"), "size_estimate_witness": cb.get("size_estimate_witness")})
+                "fresh_ok_images": cb.get("fresh_ok"), "size_estimate_witness": cb.get("size_estimate_witness"), "verify_pages_verdicts": cb.get("vp_verdicts")})
     return ctx.finish("proof", cov, ["cryptography and PKCS#7 are symbolic / observed; Mach-O reading of the verifier goes through Go's debug/macho, modelled by the loader.h reader",
+                                     "VerifyPages / CodeSize are not hand-modelled: srcgen translates their bodies (vp_prog, cs_code_size_of); the interpreter FmtMACHO/VpLang.v states Go's semantics of int64, make, reslice, io.ReadFull, hash.Hash; read errors of the underlying file are not modelled",
                                      "csblob.Sign is modelled after DefaultsFromBundle (identifier, team id and default requirement are inputs)"])
